@@ -20,10 +20,9 @@ H['maskdict-misc'].required_goals = ('misc',)
 def build_jobs(tier, seed):
     J = common.Job
     jobs = [J(H['maskdict-misc'], {})]
-    refkeys = ['password', 'token', 'chapsecret'] if tier == 'quick' \
-        else SZ.KEYS
+    refkeys = SZ.KEYS
     values = ['str', 'int', 'none', 'list', 'bytes', 'plain']
-    for shape in ('flat', 'nested', 'nested-dict'):
+    for shape in ('flat', 'nested', 'nested-dict', 'nested3'):
         for vk in values:
             for rk in refkeys:
                 for kk in ('exact', 'embedded', 'nearmiss'):
@@ -43,7 +42,7 @@ def build_jobs(tier, seed):
 def describe(tier):
     return {
         'shapes': 'flat non-dict Mapping; dict holding a Mapping; Mapping '
-        'holding a Mapping (depth 2); width 2 (one symbolic key + one '
+        'holding a Mapping; dict in dict holding a Mapping (depth 3); width 2 (one symbolic key + one '
         'concrete sibling key assumed different from it)',
         'keys': 'reference key in symbolic letter case with digit suffix; '
         'the same embedded between two arbitrary characters; near miss '
@@ -51,7 +50,7 @@ def describe(tier):
         'keys (concrete)' % (3 if tier == 'quick' else 5),
         'values': 'string with an embedded --password secret (symbolic), '
         'arbitrary 2-character string, int, None, list, bytes',
-        'outside': 'depth > 2, width > 2, two symbolic keys in one mapping',
+        'outside': 'depth > 3, width > 2, two symbolic keys in one mapping',
     }
 
 
